@@ -10,7 +10,7 @@ PROP = dict(
                "the request was rejected - hold exactly the data it held before. In-process companions feed the same byte generators into roaring.UnmarshalBinary, "
                "ImportRoaringBits on a B-tree bitmap (with a reference reading of the payload: accepted consistent payloads must equal decode-then-merge, rejected "
                "ones must leave the bitmap unchanged, and the bitmap must survive count/read/add/optimize/write), fragment.Open on mutated fragment files incl. the op log, "
-               "API.ClusterMessage as the gossip delegate calls it, and pql.ParseString (must finish). A panic in those is a failure. Exploration, not proof.",
+               "API.ClusterMessage as the gossip delegate calls it, and pql.ParseString (must return - a value or an error - and must finish; every panic site of pql/ast.go that text can reach is driven by a dedicated generator and listed as a site:* class). A panic in those is a failure. Exploration, not proof.",
     level_note="Trusted: Go toolchain, rapid, the byte-level encoders/reference reader of the two roaring formats in harness/pkg/roaring/c06_bytes_test.go (self-checked "
                "against the decoder on unmutated encodings). Seeds hold 1-3 containers (so the official run-cookie form never carries an offset header). In the in-process roaring checks the payload ends exactly at an inaccessible guard page (debug.SetPanicOnFault), so reads past the end made through unsafe pointers are caught too. "
                "Recovered panics of the HTTP request goroutine (500 'PANIC:') count as rejections by the statement and are only counted in the evidence. "
@@ -18,7 +18,7 @@ PROP = dict(
                "Hangs are detected with generous timeouts (40 s per request, 60 s per parse) on operations that take milliseconds. A native go fuzz target on both roaring decoders runs in the thorough tier (120 s, 8 workers) with the same oracles; it contributes no evidence counts.",
     rule="server: one request per case, entry point import|query|message (3:2:1); distinct = hash of path+body; non-trivial = the request passed the first validation: "
          "import accepted or rejected by a container/offset check, query text that parses (or a recovered panic), message decoded and handed to receiveMessage. "
-         "roaring/stored companions: non-trivial = accepted, or >= 8 bytes (past the magic/length check). parse: non-trivial = accepted, panicked, or rejected after the first symbol. "
+         "roaring/stored companions: non-trivial = accepted, or >= 8 bytes (past the magic/length check). parse: non-trivial = accepted, or rejected after the first symbol (incl. every error-site case). "
          "message: non-trivial = decoded (accepted or refused by receiveMessage).",
     assumptions=["an import payload is 'consistent' iff a strict reading by the format descriptions succeeds (cardinalities match, arrays and runs strictly increasing, keys increasing)",
                  "a query text is malformed iff pql.ParseString (same build, in the parent) rejects it; only then must a rejected query leave data unchanged "
